@@ -115,7 +115,7 @@ fn gen_case(rng: &mut Rng, base: u64, long: bool) -> Case {
         } else if k < 8 {
             Op::Exit(rng.below(16) as usize, rng.chance(1, 3))
         } else {
-            Op::Adv(*rng.pick(&[0u64, 1, 7, 100, 499, 500, 501, 999, 1000, 1001, 2500, 9_999, 10_000, 12_345]))
+            Op::Adv(*rng.pick(&[0u64, 1, 7, 100, 499, 500, 501, 999, 1000, 1001, 2500, 9_999, 10_000, 12_345, 59_999, 60_001, 130_000]))
         });
     }
     Case {
